@@ -61,6 +61,19 @@ def generate(seed: int, tier: str) -> Dict[str, Any]:
             s, d = (a, b) if a <= b else (b, a)
             ge["%s→%s" % (s, d)] = {"id": "%s→%s" % (s, d), "src": s, "dst": d, "weight": round(gr.uniform(0.1, 1.0), 3), "rel": "coact", "updated_at": None, "attrs": {}}
         world["gel"] = {"nodes": {}, "edges": ge, "meta": {"schema": "v1.1", "merges": [], "splits": [], "promotions": [], "concept_nodes_count": 0, "edges_count": len(ge)}}
+    dup_owner = r.chance(0.15) and len(world["episodes"]) >= 2
+    if dup_owner:
+        # another owner stores an episode under an id that is already taken (ids are caller-supplied): fresher and more
+        # important than the original - it must not lend its metadata to the original's ranking
+        others = sorted(set(world["agents"]) | {"world"})
+        for src in r.sample(world["episodes"], min(len(world["episodes"]), r.randint(1, 2))):
+            cp = dict(src)
+            cp["owner"] = r.choice([o for o in others if o != src.get("owner")] or others)
+            cp["ts"] = E.iso_from_ms(E.T0_MS - 1000).replace("+00:00", "Z")
+            cp["importance"] = 1.0
+            cp["text"] = " ".join(r.sample(E.VOCAB, 2))
+            cp["vec"] = "text"
+            world["episodes"].append(cp)
     fams = ["t2", "t2", "t1", "t3", "t2cache", "t4cache"]
     if r.chance(0.4):
         fams.append("hybrid")
@@ -70,7 +83,7 @@ def generate(seed: int, tier: str) -> Dict[str, Any]:
         fams.append("kill")
     raw = E.valid_cfg(rng.stream("config"), fams, p=0.5)
     raw.setdefault("t2", {})
-    if r.chance(0.6):
+    if r.chance(0.6) or dup_owner:
         raw["t2"]["owner_scope"] = r.choice(["agent", "agent", "world"])
     if r.chance(0.6):
         raw["t2"]["sim_threshold"] = r.choice([-1.0, -0.2, 0.0, 0.05])
@@ -80,7 +93,8 @@ def generate(seed: int, tier: str) -> Dict[str, Any]:
         # the T1/T2 fan-out is the same retrieval contract: shards, per-shard hits, merged and rescored
         raw["perf"] = dict(raw.get("perf") or {}, enabled=True)
         raw["perf"]["parallel"] = {"enabled": True, "t1": r.chance(0.5), "t2": True, "agents": False, "max_workers": r.choice([2, 3, 4])}
-    reader = r.chance(0.15)
+    # (an id-keyed vector store cannot hold one id twice: worlds with a re-used id are not served by the reader)
+    reader = r.chance(0.15) and not dup_owner
     if reader:
         # retrieval served by the embedding-store reader (shards on disk next to the index): the same contract applies
         raw["perf"] = dict(raw.get("perf") or {}, enabled=True)
@@ -181,7 +195,21 @@ def execute(p: Dict[str, Any]) -> Dict[str, Any]:
                 thr = float(cfg_t2.get("sim_threshold", 0.3))
                 scope = str(cfg_t2.get("owner_scope", "any")).lower()
                 idx = state["mem_index"]
-                eps = {str(e["id"]): e for e in idx._eps}
+                # an id may be stored under several owners: the copy that counts is the one the query can see
+                owner_vis = ctx.agent_id if scope == "agent" else ("world" if scope == "world" else None)
+                eps: Dict[str, Any] = {}
+                for e in idx._eps:
+                    eid = str(e["id"])
+                    if eid not in eps or (owner_vis is not None and eps[eid].get("owner") != owner_vis and e.get("owner") == owner_vis):
+                        eps[eid] = e
+                # ... and a hit says itself whose copy it is
+                for x in res.retrieved:
+                    xo = getattr(x, "owner", None)
+                    if xo is not None:
+                        for e in idx._eps:
+                            if str(e["id"]) == str(x.id) and str(e.get("owner")) == str(xo):
+                                eps[str(x.id)] = e
+                                break
                 ids = [str(x.id) for x in res.retrieved]
                 ctxs = "agent=%s text=%r scope=%s k=%d thr=%s tiers=%s served_from_cache=%s" % (
                     ctx.agent_id, text, scope, k, thr, cfg_t2.get("tiers"), not fresh)
